@@ -4,6 +4,8 @@ CONSTANTS
   Keys = {"a", "b"}
   KeyPlans <- SymTwoCallPlans
   OutFile = "once_sched_2.ndjson"
+  OutFileP = "once_sched_2p.ndjson"
   ZeroKeySets <- AnyZeroKeys
+  PanicKeySets <- OnePanicKey
 INVARIANTS Emit GenOK NoStuck
 CHECK_DEADLOCK FALSE
